@@ -244,6 +244,6 @@ func spin(us int) {
 }
 
 func TestC17_Concurrent(t *testing.T) {
-	p := kit.Prop[C17Conc]{ID: "C17", Name: "Concurrent", Quick: 60, Thorough: 4000, Gen: genC17Conc, Run: runC17Conc, Journal: true}
+	p := kit.Prop[C17Conc]{ID: "C17", Name: "Concurrent", Quick: 160, Thorough: 20000, Gen: genC17Conc, Run: runC17Conc, Journal: true}
 	p.Execute(t)
 }
